@@ -87,10 +87,8 @@ package backend
 //@   ghost-update at entry: sawEOF = false
 //@   ghost-update after call isEOFPacket#0: sawEOF = ret0
 //@   loop 0 invariant maxRows > 0 ==> len(result.RowDatas) <= maxRows
-//@   loop 0 invariant fresh(result.RowDatas) || len(result.RowDatas) == 0
 //@   loop 0 invariant 0 <= bufLength && bufLength <= mysql.MaxPayloadLen && !sawEOF
 //@   loop 0 assigns result.Resultset.RowDatas, result.Status, dc.status, dc.moreRowExists, dc.pkgErr
 //@   assert at call drainResults#0: maxRows > 0 && len(result.RowDatas) > maxRows
 //@   ensures case complete: err == nil && !dc.moreRowExists ==> sawEOF
 //@   ensures case limit:    err == nil && maxRows > 0 ==> len(result.RowDatas) <= maxRows
-//@   ensures case partial:  err == nil && dc.moreRowExists ==> bufLength > mysql.MaxPayloadLen
